@@ -506,8 +506,13 @@ static std::string describe_threads(const std::vector<TaskSample>& ts) {
 }
 void watchdog_pause(bool p) { g_wd_paused.store(p); }
 void watchdog_stop() { g_wd_stop.store(true); { std::lock_guard<std::mutex> l(g_gate_m); g_perturb.suspended.store(false); } g_gate_cv.notify_all(); if (g_wd_thread) { g_wd_thread->join(); delete g_wd_thread; g_wd_thread = nullptr; } }
-void watchdog_start(const WatchdogCfg& cfg, HangFn on_hang) {
+void watchdog_start(const WatchdogCfg& cfg, HangFn on_hang_user) {
     g_wd_stop.store(false);
+    // debugging aid: VRT_HOLD_ON_HANG=1 keeps a process that reached a hang verdict alive (for gdb -p) instead of reporting and exiting
+    HangFn on_hang = [on_hang_user](const HangInfo& hi) {
+        if (getenv("VRT_HOLD_ON_HANG") && (hi.quiescent || hi.spin_stall)) { fprintf(stderr, "[vrt] HOLD pid %d: %s\n", (int)getpid(), hi.quiescent ? "quiescent" : "spin-stall"); fflush(stderr); for (;;) sleep(1000); }
+        on_hang_user(hi);
+    };
     g_wd_thread = new std::thread([cfg, on_hang] {
         int self = gettid_();
         uint64_t last = g_progress.load(); double last_t = now_s();
